@@ -176,10 +176,14 @@ def run(chk):
     if counter is None or not barrier_tests:
         raise AnchorMissing("barrier test on the arrival counter (attribute incremented by one per arrival) in joinpoint_reached")
     bt = barrier_tests[0]
-    op = type(bt.test.ops[0])
     left_is_counter = is_self_attr(bt.test.left, counter)
     other = bt.test.comparators[0] if left_is_counter else bt.test.left
-    ok = u(other) == "len(self.workers)" and (op is ast.Eq or (op is ast.GtE and left_is_counter) or (op is ast.LtE and not left_is_counter))
+    # the test is evaluated for arrived in (1, 2, 3) of 3 workers: it must separate exactly `arrived == 3`; the arm taken then is the barrier-closed arm
+    from sa import minieval as _me
+    _cmp = _me._CMP.get(type(bt.test.ops[0]))
+    res = [(_cmp(a, 3) if left_is_counter else _cmp(3, a)) for a in (1, 2, 3)] if _cmp is not None else [None] * 3
+    ok = u(other) == "len(self.workers)" and res[0] == res[1] and res[1] != res[2] and None not in res
+    closed_pol = bool(res[2])
     chk.ob("O1.2", "barrier: arrival counter == len(workers)", ok, bt, f"`{u(bt.test)}`" + ("" if ok else " lets the step close before all workers arrived (or never)"))
     cinc = [i for i in incs if i.target.attr == counter]
     btn = gjr.node_of(bt)
@@ -188,11 +192,11 @@ def run(chk):
     others = [n for m in dm.values() for n in walk_body(m) if isinstance(n, (ast.Assign, ast.AugAssign)) and
               any(is_self_attr(t, counter) for t in (n.targets if isinstance(n, ast.Assign) else [n.target])) and m.name not in ("__init__",) and n not in cinc]
     for o in others:
-        ok = isinstance(o, ast.Assign) and source.is_const(o.value, 0) and source.enclosing_func(o) is jr and any(t is bt.test and pol for t, pol in guards(o))
+        ok = isinstance(o, ast.Assign) and source.is_const(o.value, 0) and source.enclosing_func(o) is jr and any(t is bt.test and pol == closed_pol for t, pol in guards(o))
         chk.ob("O1.2", "arrival counter reset only when the barrier closes", ok, o, short(o, 60))
     for x in mv_calls:
         gs = guards(x)
-        in_barrier = any(t is bt.test and pol for t, pol in gs)
+        in_barrier = any(t is bt.test and pol == closed_pol for t, pol in gs)
         not_finished = any((not pol) and isinstance(t, ast.Call) and last_attr(t.func) == "finished" for t, pol in gs)
         chk.ob("O1.2", "next element driven only behind barrier and not finished", in_barrier and not_finished, x,
                f"guards: {[(u(t), pol) for t, pol in gs]}")
@@ -242,7 +246,7 @@ def run(chk):
         ok = bool(callers) and all(source.enclosing_func(x) is jr for x in callers)
         for x in callers:
             gs = guards(x)
-            ok = ok and any(t is bt.test and pol for t, pol in gs) and any(pol and isinstance(t, ast.Call) and last_attr(t.func) == "finished" for t, pol in gs)
+            ok = ok and any(t is bt.test and pol == closed_pol for t, pol in gs) and any(pol and isinstance(t, ast.Call) and last_attr(t.func) == "finished" for t, pol in gs)
         chk.ob("O1.3", "completion only behind barrier and finished", ok, c, f"callers: {[source.loc(x) for x in callers]}")
     fin = dm.get("finished")
     if fin is None:
@@ -267,7 +271,7 @@ def run(chk):
         sincs = [n for m in dm.values() for n in walk_body(m) if isinstance(n, (ast.AugAssign, ast.Assign)) and
                  any(is_self_attr(t, stepattr) for t in (n.targets if isinstance(n, ast.Assign) else [n.target])) and m.name != "__init__"]
         ok = len(sincs) == 1 and isinstance(sincs[0], ast.AugAssign) and source.is_const(sincs[0].value, 1) and isinstance(sincs[0].op, ast.Add) and source.enclosing_func(sincs[0]) is jr \
-            and [t is bt.test and pol for t, pol in guards(sincs[0])] == [True]
+            and [t is bt.test and pol == closed_pol for t, pol in guards(sincs[0])] == [True]
         chk.ob("O1.3", "step attribute incremented exactly once per closed barrier", ok, sincs[0] if sincs else jr, f"{len(sincs)} writer(s) of self.{stepattr} outside __init__")
         if sincs:
             fin_tests = [n for n in walk_body(jr) if isinstance(n, ast.If) and isinstance(n.test, ast.Call) and last_attr(n.test.func) == "finished"]
@@ -275,7 +279,7 @@ def run(chk):
             chk.ob("O1.3", "step incremented before the finished test", ok, fin_tests[0] if fin_tests else jr, "")
     # resets before any message
     resets = [n for n in walk_body(jr) if isinstance(n, ast.Assign) and any(is_self_attr(t, counter) or (stepmap and is_self_attr(t, stepmap)) for t in n.targets)
-              and any(t is bt.test and pol for t, pol in guards(n))]
+              and any(t is bt.test and pol == closed_pol for t, pol in guards(n))]
     msg_calls = [c for c in source.calls_in(jr) if last_attr(c.func) in ("move_to_next_task", "on_benchmark_complete", "on_task_finished", "drive_at", "send")]
     ok = len(resets) >= 2 and all(gjr.dominated_by_nodes(gjr.node_of(c), [gjr.node_of(r)]) for c in msg_calls for r in resets)
     chk.ob("O1.3", "arrival counter and per-step map reset before any message is sent", ok, resets[0] if resets else jr, f"{len(resets)} reset(s), {len(msg_calls)} sending call(s)")
@@ -313,7 +317,7 @@ def run(chk):
     if flag:
         clears = [n for m in dm.values() for n in walk_body(m) if isinstance(n, ast.Assign) and any(is_self_attr(t, flag) for t in n.targets)
                   and not source.is_const(n.value, True) and m.name != "__init__"]
-        ok = len(clears) >= 1 and all(source.enclosing_func(n) is jr and any(t is bt.test and pol for t, pol in guards(n)) and source.is_const(n.value, False) for n in clears)
+        ok = len(clears) >= 1 and all(source.enclosing_func(n) is jr and any(t is bt.test and pol == closed_pol for t, pol in guards(n)) and source.is_const(n.value, False) for n in clears)
         chk.ob("O1.4", "flag cleared only when the barrier closes", ok, clears[0] if clears else jr, f"{len(clears)} clearing store(s)")
     # key-domain agreement: the per-step arrival map is keyed by WORKER id; the pending test must map client -> worker first
     if stepmap:
@@ -336,7 +340,7 @@ def run(chk):
         if not lookups:
             chk.ob("O1.4", "pending test for the completing task's clients", False, mc, "the completed-by branch never consults the per-step arrival map")
     mc_calls = package_calls(repo, "may_complete_current_task")
-    ok = bool(mc_calls) and all(source.enclosing_func(x) is jr and any(t is bt.test and not pol for t, pol in guards(x)) for x in mc_calls)
+    ok = bool(mc_calls) and all(source.enclosing_func(x) is jr and any(t is bt.test and pol != closed_pol for t, pol in guards(x)) for x in mc_calls)
     chk.ob("O1.4", "completion check only while the barrier is still open", ok, mc_calls[0] if mc_calls else mc, "")
     ccs = [c for c in package_calls(repo, "CompleteCurrentTask") if isinstance(source.parent(c), ast.Call)]
     for c in ccs:
@@ -598,7 +602,9 @@ def run(chk):
         raise AnchorMissing("loop over self.task_allocations in AsyncIoAdapter.run")
     AL_ = al[0]
     exs = [n for n in ast.walk(AL_) if isinstance(n, ast.Call) and last_attr(n.func) == "AsyncExecutor"]
-    aw = [n for n in ast.walk(AL_) if isinstance(n, ast.Call) and u(n.func) == "awaitables.append"]
+    ga0 = [n for n in walk_body(arun) if isinstance(n, ast.Call) and dotted(n.func) == "asyncio.gather"]
+    awl = ga0[0].args[0].value.id if ga0 and ga0[0].args and isinstance(ga0[0].args[0], ast.Starred) and isinstance(ga0[0].args[0].value, ast.Name) else None
+    aw = [n for n in ast.walk(AL_) if isinstance(n, ast.Call) and awl is not None and u(n.func) == f"{awl}.append"]
     ok = len(exs) == 1 and len(aw) == 1 and not guards(exs[0], stop=AL_) and not guards(aw[0], stop=AL_) and not _has_jump(AL_) and isinstance(AL_.target, ast.Tuple)
     chk.ob("O1.10", "one executor per allocation of the row, unconditionally", ok, AL_, f"executors={len(exs)} awaitables.append={len(aw)}")
     if exs and isinstance(AL_.target, ast.Tuple):
@@ -608,13 +614,14 @@ def run(chk):
         ok = u(a[0]) == cidv and u(source.inline_node(a[1], ldefs_)) == f"{tav}.task" and u(a[5]) == "self.cancel" and u(a[6]) == "self.complete" and u(a[4]) == "self.sampler"
         chk.ob("O1.10", "executor gets this client's id, this allocation's task and the worker's shared sampler / cancel / complete", ok, exs[0], short(exs[0], 120))
         sf_ = [n for n in ast.walk(AL_) if isinstance(n, ast.Call) and last_attr(n.func) == "schedule_for"]
-        ok = bool(sf_) and u(sf_[0].args[0]) == tav and "params_per_task" in u(sf_[0].args[1])
+        ok = bool(sf_) and u(sf_[0].args[0]) == tav and isinstance(sf_[0].args[1], ast.Subscript) and isinstance(sf_[0].args[1].value, ast.Name)
+        ppt = sf_[0].args[1].value.id if ok else None
         chk.ob("O1.10", "schedule computed for this allocation with the task's (shared) parameter source", ok, sf_[0] if sf_ else AL_, "")
         ps_ = [n for n in ast.walk(AL_) if isinstance(n, ast.Call) and last_attr(n.func) == "operation_parameters"]
-        ok = len(ps_) == 1 and any(pol and "not in params_per_task" in u(t) for t, pol in guards(ps_[0], stop=AL_))
+        ok = len(ps_) == 1 and ppt is not None and any(pol and isinstance(t, ast.Compare) and isinstance(t.ops[0], ast.NotIn) and u(t.comparators[0]) == ppt for t, pol in guards(ps_[0], stop=AL_))
         chk.ob("O1.10", "one parameter source per task (created on first sight only)", ok, ps_[0] if ps_ else AL_, "")
     ga = [n for n in walk_body(arun) if isinstance(n, ast.Call) and dotted(n.func) == "asyncio.gather"]
-    ok = len(ga) == 1 and [u(x) for x in ga[0].args] == ["*awaitables"] and isinstance(source.parent(ga[0]), ast.Await)
+    ok = len(ga) == 1 and awl is not None and [u(x) for x in ga[0].args] == [f"*{awl}"] and isinstance(source.parent(ga[0]), ast.Await)
     chk.ob("O1.10", "all executors of the row are awaited together", ok, ga[0] if ga else arun, "")
 
     # ---- O1.8 advisory: executor honours the flags ---------------------------------------------------------------------------------------------
